@@ -337,3 +337,83 @@ Example star_skips_other_dotfiles :
   /\ glob_match [SLASH; 100; STAR; 108] [SLASH; 100; SLASH; 108] = Some false
   /\ glob_match [SLASH; 100; SLASH; STAR; DOT; 108] [SLASH; 100; SLASH; 97; DOT; 108] = Some true.
 Proof. repeat split; reflexivity. Qed.
+
+(* ---------- statements about matches_with, as used by the loader ---------- *)
+
+Theorem glob_no_separator : forall ts s,
+  matches_with ts s = true -> count_sep s = count_sep_tokens ts.
+Proof. intros ts s H. apply matches_with_iff in H. eapply gmatch_count_sep. exact H. Qed.
+
+Theorem glob_dotfiles : forall ts a b,
+  matches_with ts (a ++ SLASH :: DOT :: b) = true ->
+  exists ta stars tb, ts = ta ++ Char SLASH :: stars ++ Char DOT :: tb /\ all_seq stars /\
+                      gmatch true ta a /\ gmatch false tb b.
+Proof. intros ts a b H. apply matches_with_iff in H. apply dot_component. exact H. Qed.
+
+Theorem glob_dotfiles_start : forall ts b,
+  matches_with ts (DOT :: b) = true ->
+  exists stars tb, ts = stars ++ Char DOT :: tb /\ all_seq stars /\ gmatch false tb b.
+Proof. intros ts b H. apply matches_with_iff in H. apply dot_after_sep. exact H. Qed.
+
+(* The stronger reading — a pattern component that contains a wildcard never matches a name
+   that begins with a dot, which is what glob::glob_with does on the real file system — fails
+   for the whole-path matcher exactly through stars that match nothing in front of a literal
+   dot.  star_dot_free excludes that shape: no `*` between a separator and a literal dot. *)
+Fixpoint skip_stars (ts : list token) : list token :=
+  match ts with AnySequence :: r => skip_stars r | _ => ts end.
+
+Fixpoint star_dot_free (ts : list token) : bool :=
+  match ts with
+  | [] => true
+  | Char c :: r =>
+      (if is_sep c
+       then match r with
+            | AnySequence :: _ => match skip_stars r with Char d :: _ => negb (d =? DOT) | _ => true end
+            | _ => true
+            end
+       else true) && star_dot_free r
+  | _ :: r => star_dot_free r
+  end.
+
+Lemma skip_stars_app : forall stars rest, all_seq stars -> skip_stars (stars ++ rest) = skip_stars rest.
+Proof.
+  induction stars as [|t stars IH]; intros rest H; [reflexivity|].
+  inversion H; subst. cbn. apply IH. assumption.
+Qed.
+
+Lemma star_dot_free_no_stars : forall ta stars tb,
+  star_dot_free (ta ++ Char SLASH :: stars ++ Char DOT :: tb) = true -> all_seq stars -> stars = [].
+Proof.
+  induction ta as [|t ta IH]; intros stars tb H A.
+  - destruct stars as [|s0 stars]; [reflexivity|]. exfalso.
+    inversion A as [|? ? Hs A']; subst. cbn [app star_dot_free] in H.
+    assert (E : is_sep SLASH = true) by reflexivity. rewrite E in H.
+    change (skip_stars (AnySequence :: stars ++ Char DOT :: tb)) with (skip_stars (stars ++ Char DOT :: tb)) in H.
+    rewrite (skip_stars_app stars (Char DOT :: tb) A') in H. cbn [skip_stars] in H.
+    rewrite N.eqb_refl in H. cbn in H. discriminate.
+  - apply (IH stars tb); [|exact A]. cbn [app star_dot_free] in H. destruct t; auto.
+    apply andb_true_iff in H. apply H.
+Qed.
+
+(* outside that shape, a name that begins with a dot is matched by a pattern component that
+   begins with a literal dot *)
+Theorem glob_dotfiles_component : forall ts a b,
+  star_dot_free ts = true ->
+  matches_with ts (a ++ SLASH :: DOT :: b) = true ->
+  exists ta tb, ts = ta ++ Char SLASH :: Char DOT :: tb /\ gmatch true ta a /\ gmatch false tb b.
+Proof.
+  intros ts a b F H. destruct (glob_dotfiles ts a b H) as [ta [stars [tb [E [A [G1 G2]]]]]].
+  subst ts. rewrite (star_dot_free_no_stars ta stars tb F A). exists ta, tb. auto.
+Qed.
+
+(* and inside it the stronger reading is false: "/d/*.l" matches "/d/.l" *)
+Theorem glob_dotfiles_component_refuted :
+  exists ts a b, parse_pattern [SLASH; 100; SLASH; STAR; DOT; 108] = Some ts /\
+    matches_with ts (a ++ SLASH :: DOT :: b) = true /\
+    ~ exists ta tb, ts = ta ++ Char SLASH :: Char DOT :: tb.
+Proof.
+  eexists. exists [SLASH; 100], [108]. split; [reflexivity|]. split; [reflexivity|].
+  intros [ta [tb E]].
+  destruct ta as [|t0 [|t1 [|t2 [|t3 [|t4 [|t5 ta]]]]]]; cbn in E; try discriminate.
+  repeat (destruct ta as [|? ta]; cbn in E; try discriminate).
+Qed.
